@@ -935,6 +935,8 @@ pub struct TapeTrivia<'a, 'b> {
   pub placed: Vec<Pos>,
   /// when set, comments go only to this kind of position
   pub only_at: Option<Pos>,
+  /// upper bound on the number of comments placed
+  pub max_comments: Option<usize>,
 }
 
 impl<'a, 'b> TapeTrivia<'a, 'b> {
@@ -951,6 +953,7 @@ impl<'a, 'b> TapeTrivia<'a, 'b> {
       suppressed: vec![],
       placed: vec![],
       only_at: None,
+      max_comments: None,
     }
   }
   fn nl(&mut self) -> &'static str {
@@ -966,6 +969,9 @@ impl<'a, 'b> TapeTrivia<'a, 'b> {
       return false;
     }
     if self.only_at.map(|p| p != pos).unwrap_or(false) {
+      return false;
+    }
+    if self.max_comments.map(|m| self.placed.len() >= m).unwrap_or(false) {
       return false;
     }
     self.placed.push(pos);
@@ -1002,7 +1008,7 @@ impl<'a, 'b> Trivia for TapeTrivia<'a, 'b> {
       if self.no_comment_at.contains(&pos) {
         self.suppressed.push(pos);
         k = 1;
-      } else if self.only_at.map(|p| p != pos).unwrap_or(false) {
+      } else if self.only_at.map(|p| p != pos).unwrap_or(false) || self.max_comments.map(|m| self.placed.len() >= m).unwrap_or(false) {
         k = 1;
       } else {
         self.placed.push(pos);
